@@ -161,7 +161,7 @@ def sctp_chunk(rnd, ctype=None):
         st.update(tag=body[0:4], arwnd=body[4:8], nout=body[8:10], nin=body[10:12], itsn=body[12:16], params=[p[1] for p in params])
         value = body + b''.join(p[0] for p in params)
     elif ctype == 3:    # SACK
-        ngap, ndup = rnd.choice([0, 0, 1, 2, 3]), rnd.choice([0, 0, 1, 2])
+        ngap, ndup = rnd.choice([0, 0, 1, 2, 3, 9, 12]), rnd.choice([0, 0, 1, 2, 8, 30])
         body = rnd.randbytes(8) + struct.pack('!HH', ngap, ndup)
         gaps = [rnd.randbytes(4) for _ in range(ngap)]
         dups = [rnd.randbytes(4) for _ in range(ndup)]
@@ -237,3 +237,65 @@ def bitflips(pkt, rnd, k):
 
 def random_strings(rnd, k, maxlen=250):
     return [rnd.randbytes(rnd.randint(0, maxlen)) for _ in range(k)]
+
+
+def pkt_udp_raw(rnd, dport=None, n=None):
+    """UDP datagram to a port that designates no next parser (or one that merely looks like a protocol number): raw payload"""
+    dport = rnd.choice([0, 4, 6, 17, 53, 5684, 65535]) if dport is None else dport
+    payload = rnd.randbytes(rnd.randint(8, 60) if n is None else n)
+    return udp(rnd, payload, csum=lambda x: rnd.randrange(1, 65536), dport=dport), dict(raw=payload, dport=dport)
+
+
+def pkt_ipv6_udp_raw(rnd):
+    src, dst = rnd.randbytes(16), rnd.randbytes(16)
+    dport = rnd.choice([0, 4, 6, 17, 53, 5684, 65535])
+    payload = rnd.randbytes(rnd.randint(8, 60))
+    u = udp(rnd, payload, csum=lambda x: udp_checksum_v6(src, dst, x), dport=dport)
+    return ipv6(rnd, u, 17, src, dst), dict(raw=payload, dport=dport)
+
+
+def pkt_ipv4_udp_raw(rnd):
+    src, dst = rnd.randbytes(4), rnd.randbytes(4)
+    dport = rnd.choice([0, 4, 6, 17, 53, 5684, 65535])
+    payload = rnd.randbytes(rnd.randint(8, 60))
+    u = udp(rnd, payload, csum=lambda x: udp_checksum_v4(src, dst, x), dport=dport)
+    return ipv4(rnd, u, 17, src, dst), dict(raw=payload, dport=dport)
+
+
+def sctp_large(rnd, kind=None):
+    """well-formed but large SCTP packets: chunks made of more than a thousand parameters, jumbo DATA chunks, long SACKs"""
+    kind = kind or rnd.choice(['params', 'data', 'sack'])
+    if kind == 'params':
+        n = rnd.choice([1100, 1300])
+        params = [sctp_param(rnd, vlen=rnd.choice([0, 1, 4])) for _ in range(n)]
+        value = b''.join(p[0] for p in params)
+        ctype = rnd.choice([4, 5, 9])
+        flags = rnd.randrange(256)
+        raw = struct.pack('!BBH', ctype, flags, 4 + len(value)) + value
+        st = dict(ctype=ctype, flags=flags, params=[p[1] for p in params], clen=4 + len(value), padding=0)
+        return sctp(rnd, chunks=[(raw, st)])
+    if kind == 'data':
+        body = rnd.randbytes(12)
+        data = rnd.randbytes(rnd.choice([2000, 3001]))
+        flags = rnd.randrange(256)
+        clen = 16 + len(data)
+        raw = struct.pack('!BBH', 0, flags, clen) + body + data
+        st = dict(ctype=0, flags=flags, tsn=body[0:4], sid=body[4:6], ssn=body[6:8], ppid=body[8:12], data=data, clen=clen, padding=(4 - clen % 4) % 4)
+        return sctp(rnd, chunks=[(pad4(raw), st)])
+    ngap, ndup = rnd.choice([9, 40, 300]), rnd.choice([8, 64])
+    body = rnd.randbytes(8) + struct.pack('!HH', ngap, ndup)
+    gaps = [rnd.randbytes(4) for _ in range(ngap)]
+    dups = [rnd.randbytes(4) for _ in range(ndup)]
+    flags = rnd.randrange(256)
+    value = body + b''.join(gaps) + b''.join(dups)
+    st = dict(ctype=3, flags=flags, cum=body[0:4], arwnd=body[4:8], ngap=ngap, ndup=ndup, gaps=gaps, dups=dups, clen=4 + len(value), padding=0)
+    return sctp(rnd, chunks=[(struct.pack('!BBH', 3, flags, 4 + len(value)) + value, st)])
+
+
+def sctp_jumbo_malformed(rnd):
+    """a chunk type that carries no (or a 4-byte) value, announced with a huge non-zero value"""
+    ctype = rnd.choice([7, 8, 11, 14])
+    value = bytes([rnd.randrange(1, 256)]) + rnd.randbytes(rnd.choice([1800, 2500, 4000]))
+    value = value[:len(value) - len(value) % 4]
+    raw = struct.pack('!BBH', ctype, 0, 4 + len(value)) + value
+    return sctp(rnd, chunks=[(raw, dict(ctype=ctype))])[0]
